@@ -47,7 +47,11 @@ type vNode struct {
 	kick   chan struct{} // wakes the drainer after held changed
 }
 
+// vNetFlip alternates debug logging between the worlds a test creates: behaviour must not depend on the log level
+var vNetFlip int
+
 type vNet struct {
+	Debug bool // nodes of this world log at debug level (into /dev/null)
 	t     testing.TB
 	Nodes map[string]*vNode
 	byUDP map[netip.AddrPort]*vNode
@@ -59,7 +63,8 @@ type vNet struct {
 
 func vNewNet(t testing.TB) *vNet {
 	ca, _, caKey, _ := cert_test.NewTestCaCert(cert.Version2, cert.Curve_CURVE25519, time.Now().Add(-time.Hour), time.Now().Add(1000*time.Hour), nil, nil, []string{})
-	return &vNet{t: t, Nodes: map[string]*vNode{}, byUDP: map[netip.AddrPort]*vNode{}, CA: ca, CAKey: caKey}
+	vNetFlip++
+	return &vNet{t: t, Nodes: map[string]*vNode{}, byUDP: map[netip.AddrPort]*vNode{}, CA: ca, CAKey: caKey, Debug: vNetFlip%2 == 0}
 }
 
 // AddNode builds and starts a node. overrides are merged over the e2e default config.
@@ -72,11 +77,35 @@ func (n *vNet) AddNode(v cert.Version, name, networks string, overrides m) *vNod
 	for k, val := range overrides {
 		base[k] = val
 	}
+	restore := n.logSetup()
 	ctrl, vpn, udpAddr, cfg := newSimpleServer(v, n.CA, n.CAKey, name, networks, base)
+	restore()
 	nd := &vNode{Name: name, Ctrl: ctrl, Vpn: vpn, UDP: udpAddr, Cfg: cfg, stop: make(chan struct{}), kick: make(chan struct{}, 1)}
 	n.Nodes[name] = nd
 	n.byUDP[udpAddr] = nd
 	return nd
+}
+
+// logSetup makes the repository's e2e helper (NewTestLogger: level from TEST_LOGS, output to os.Stderr at the time of the
+// call) build a debug-level logger that writes to /dev/null when this world runs at debug level.
+func (n *vNet) logSetup() func() {
+	if !n.Debug {
+		return func() {}
+	}
+	oldEnv, had := os.LookupEnv("TEST_LOGS")
+	oldErr := os.Stderr
+	if f, err := os.OpenFile(os.DevNull, os.O_WRONLY, 0); err == nil {
+		os.Stderr = f
+	}
+	os.Setenv("TEST_LOGS", "2")
+	return func() {
+		os.Stderr = oldErr
+		if had {
+			os.Setenv("TEST_LOGS", oldEnv)
+		} else {
+			os.Unsetenv("TEST_LOGS")
+		}
+	}
 }
 
 func (n *vNet) Start() {
@@ -227,6 +256,12 @@ func (n *vNet) DeliverTo(d *vDatagram, to, from netip.AddrPort) bool {
 	nd := n.byUDP[to]
 	if nd == nil {
 		return false
+	}
+	if n.Debug && len(d.Data) < header.Len {
+		// the repository's tester socket parses every injected datagram when debug logging is on and panics on one
+		// shorter than a header (punch datagrams); the node itself ignores such datagrams
+		synctest.Wait()
+		return true
 	}
 	p := &udp.Packet{To: to, From: from, Data: append([]byte(nil), d.Data...)}
 	nd.Ctrl.InjectUDPPacket(p)
